@@ -12,14 +12,32 @@ from __future__ import annotations
 import itertools
 from typing import Any, Dict, List
 
-from .common import call, same, is_symbolic, PathAbort, mk_array
+from .common import call, same, is_symbolic, PathAbort, mk_array, replay_tiers
 from .c16 import FakeParameters, FakeFit
 
 PROP = "C17"
 
 
-def _perm_pool(eng, tag):
-    """a Pool stand-in; imap_unordered delivers in an arbitrary (explored) order"""
+class _It:
+    """what Pool.imap / imap_unordered return: iterable, with next(timeout)"""
+
+    def __init__(self, items):
+        self.items = list(items)
+
+    def next(self, timeout=None):
+        if not self.items:
+            raise StopIteration
+        return self.items.pop(0)
+
+    __next__ = next
+
+    def __iter__(self):
+        return self
+
+
+def _perm_pool(eng, tag, window=None):
+    """a Pool stand-in; imap_unordered delivers in an arbitrary (explored) order; with `window` = w only one of the w oldest
+    pending results can arrive next (w workers, chunksize 1)"""
     class FakePool:
         def __init__(self, *a, **k):
             pass
@@ -35,23 +53,13 @@ def _perm_pool(eng, tag):
             out = []
             k = 0
             while res:
-                i = eng.choice(len(res), "%s.arrival%d" % (tag, k))
+                i = eng.choice(len(res) if window is None else min(window, len(res)), "%s.arrival%d" % (tag, k))
                 out.append(res.pop(i))
                 k += 1
-            return out
+            return _It(out)
 
         def imap(self, fn, args, chunksize=1):
-            items = [fn(a) for a in args]
-
-            class It:
-                def next(self, timeout=None):
-                    if not items:
-                        raise StopIteration
-                    return items.pop(0)
-
-                def __iter__(self):
-                    return iter(list(items))
-            return It()
+            return _It([fn(a) for a in args])
 
         def map(self, fn, args, chunksize=None):
             return [fn(a) for a in args]
@@ -173,6 +181,129 @@ def make_fit_harness(n_methods: int):
     return harness
 
 
+# --------------------------------------------------------------------------- fit_circuit with the real worker
+def _pickling_pool():
+    """Pool stand-in for the multi-process route: every task is pickled to a worker (= the worker sees a deep copy of its
+    arguments, the results come back as copies), imap keeps submission order"""
+    import copy
+
+    class PicklingPool:
+        def __init__(self, *a, **k):
+            pass
+
+        def __enter__(self):
+            return self
+
+        def __exit__(self, *a):
+            return False
+
+        def imap(self, fn, args, chunksize=1):
+            items = [copy.deepcopy(fn(copy.deepcopy(a))) for a in args]
+
+            class It:
+                def next(self, timeout=None):
+                    if not items:
+                        raise StopIteration
+                    return items.pop(0)
+            return It()
+    return PicklingPool
+
+
+def make_real_fit_harness(methods):
+    """the real _fit_process run for several methods, once in the calling process (num_procs=1) and once through a pool that
+    pickles every task: same winner, same numbers, and the numbers belong to the winner"""
+    def harness(eng):
+        import lmfit
+        import pyimpspec.analysis.fitting as fit
+        from pyimpspec import parse_cdc
+        from . import c08
+        d, fs, zs, unmasked = c08.make_data(eng, 3, 1, concrete=True)
+        circuit = parse_cdc("R")
+        r = circuit.get_elements()[0]
+        v0 = eng.real("start")
+        r._set_limits({"R": float("-inf")}, {"R": float("inf")})
+        r.set_values(R=v0)
+        fitted = dict(zip(methods, _distinct_positive(eng, ["fitted." + m for m in methods])))   # what each method converges to
+
+        def minimize(fn, params, method=None, args=(), max_nfev=None, **kw):
+            for nm, p in params.items():
+                if p.vary:
+                    p.value = fitted[method]
+            fn(params, *args)
+            f = FakeFit(params)
+            f.ndata, f.chisqr = 2 * len(args[1]), 1.0
+            return f
+        saved = (lmfit.minimize, lmfit.Parameters, fit.Pool)
+        lmfit.minimize, lmfit.Parameters = minimize, FakeParameters
+        out = []
+        try:
+            for procs in (1, 2):
+                fit.Pool = _pickling_pool()
+                out.append(call(fit.fit_circuit, circuit, d, method=list(methods), weight="boukamp", num_procs=procs))
+        finally:
+            lmfit.minimize, lmfit.Parameters, fit.Pool = saved
+        (ok1, r1), (ok2, r2) = out
+        eng.check(ok1 and ok2, "realfit:completes", lambda: "%r / %r" % (r1, r2))
+        if not (ok1 and ok2):
+            return
+        eng.check(r1.method == r2.method, "realfit:the same method wins serially and in parallel", lambda: "%s vs %s" % (r1.method, r2.method))
+        eng.check(bool(same(r1.pseudo_chisqr, r2.pseudo_chisqr)), "realfit:same pseudo chi-squared serially and in parallel")
+        for res, tag in ((r1, "serial"), (r2, "parallel")):
+            got = res.circuit.get_elements()[0].get_values()["R"]
+            eng.check(bool(same(got, fitted[res.method])), "realfit:the returned circuit holds the winning method's values (%s)" % tag,
+                      lambda: "%s: %r vs %r" % (res.method, got, fitted[res.method]))
+        a = r1.circuit.get_elements()[0].get_values()["R"]
+        b = r2.circuit.get_elements()[0].get_values()["R"]
+        eng.check(bool(same(a, b)), "realfit:same fitted values serially and in parallel")
+        for z1, z2 in zip(list(r1.impedances.flat), list(r2.impedances.flat)):
+            eng.check(bool(same(z1, z2)), "realfit:same model impedances serially and in parallel")
+        eng.reached("realfit")
+    return harness
+
+
+# --------------------------------------------------------------------------- KK cnls: automatic num_RC limiting
+def make_cnls_harness(n_rc: int, window: int):
+    """_use_cnls stops early once the last five fits fall below a threshold taken from the first five: the fits it returns must
+    not depend on the order in which the workers finish"""
+    def harness(eng):
+        import numpy as np
+        import pyimpspec.analysis.kramers_kronig.exploratory as ex
+        from pyimpspec import parse_cdc
+        from .c18 import _data
+        data = _data(4)
+        f, Z = data.get_frequencies(), data.get_impedances()
+        # sum |tau/R| of the fitted circuit falls strictly with num_RC (symbolic values): the early stop triggers
+        taus = [eng.real("tau%d" % k) for k in range(n_rc)]
+        for k, t in enumerate(taus):
+            eng.assume(t > 0)
+            if k:
+                eng.assume(taus[k - 1] > t)
+
+        def kernel(args):
+            c = parse_cdc("K{R=1}")
+            c.get_elements()[0].set_values(tau=taus[args[3] - 1])
+            return (args[3], c)
+        saved = (ex._cnls_test, ex.Pool)
+        ex._cnls_test = kernel
+        out = []
+        try:
+            for procs, tag in ((1, "serial"), (window, "parallel")):
+                ex.Pool = _perm_pool(eng, tag, window=None if procs == 1 else window)
+                if procs == 1:
+                    ex.Pool = _perm_pool(eng, tag, window=1)
+                out.append(call(ex._use_cnls, f, Z, np.ones(len(f)), True, list(range(1, n_rc + 1)), False, False, False, 0.0, "leastsq", 10, procs, 0, None))
+        finally:
+            ex._cnls_test, ex.Pool = saved
+        (ok1, a), (ok2, b) = out
+        eng.check(ok1 and ok2, "cnls:completes", lambda: "%r / %r" % (a, b))
+        if not (ok1 and ok2):
+            return
+        eng.check(list(a.num_RCs) == list(b.num_RCs), "cnls:the same fits are returned for every arrival order", lambda: "%r vs %r" % (list(a.num_RCs), list(b.num_RCs)))
+        eng.check(len(a.num_RCs) < n_rc, "cnls:the automatic limit stops early in this scenario")
+        eng.reached("cnls")
+    return harness
+
+
 # --------------------------------------------------------------------------- KK extension search
 def make_kk_harness():
     def harness(eng):
@@ -229,6 +360,18 @@ def obligations(tier: str):
         Obligation("kk", make_kk_harness(), bounds="evaluate_log_F_ext with 10 extension evaluations, num_procs 1 vs 3",
                    functions=[ex.evaluate_log_F_ext, ex._evaluate_log_F_ext_using_custom_approach], stubs=stubs, expect_reach=["kk"], max_paths=2000000),
     ]
+    n_rc, win = (13, 2) if tier == "quick" else (14, 3)
+    obs.append(Obligation("cnls", make_cnls_harness(n_rc, win), bounds="_use_cnls with automatic num_RC limiting, num_RC 1..%d, %d workers (a result can be overtaken by at most %d later "
+                          "ones); the fitted sum |tau/R| falls strictly with num_RC (symbolic values)" % (n_rc, win, win - 1),
+                          functions=[ex._use_cnls], stubs=stubs + ["_cnls_test returns a circuit whose time constant is a symbolic, strictly decreasing function of num_RC"],
+                          expect_reach=["cnls"], max_paths=2000000))
+    ms = ("leastsq", "nelder") if tier == "quick" else ("leastsq", "nelder", "powell")
+    obs.append(Obligation("realfit", make_real_fit_harness(ms), bounds="fit_circuit(R) with the real _fit_process, methods %s, num_procs 1 (in-process) vs 2 (every task pickled); "
+                          "symbolic start value and per-method fitted values, 3 unmasked + 1 masked concrete points" % "/".join(ms),
+                          functions=[fit.fit_circuit, fit._fit_process, fit._from_lmfit, fit._to_lmfit, fit._residual, fit._convert_intermediate_result],
+                          stubs=stubs + ["lmfit.minimize: each method converges to its own symbolic value; tasks sent to a pool are deep copies (pickling)",
+                                         "log10 is strictly increasing (sort key)"],
+                          expect_reach=["realfit"], mode="fresh"))
     for o in obs:
         o.replay = o.harness
     return obs
@@ -241,12 +384,12 @@ EXPLANATION = (
 )
 ASSUMPTIONS = ["worker functions are deterministic functions of their arguments", "sort keys are pairwise distinct (ties are schedule dependent and outside the claim)",
                "Pool.imap / Pool.map deliver in submission order (their documented contract)"]
-OUTSIDE = ["real process scheduling and BLAS threading", "bit-identity of numpy's RandomState / mock data generation", "the cnls timeout path"]
+OUTSIDE = ["real process scheduling and BLAS threading", "bit-identity of numpy's RandomState / mock data generation", "the cnls timeout path (wall-clock dependent by design)"]
 
 
 def replay(obligation: str, witness):
     from sx.concrete import run_concrete
-    for tier in ("thorough", "quick"):
+    for tier in replay_tiers():
         for ob in obligations(tier):
             if ob.name == obligation:
                 reproduced, msg, _ = run_concrete(ob.harness, witness)
